@@ -836,8 +836,8 @@ func (c14ng) Gen(rng *rand.Rand, tier string) []Case {
 	}
 	// (d) golden files from the repository as seeds: whole, and cut
 	for _, g := range ngGoldenFiles() {
-		if len(g.Data) > 20000 && tier != "thorough" {
-			continue
+		if len(g.Data) > 20000 {
+			continue // too long for the Peano fuel of the extracted model; read by C15ng's oracle-only cases
 		}
 		ops := []string{"raw:" + hx(g.Data)}
 		if len(g.Data) <= 1500 || (tier == "thorough" && len(g.Data) <= 4096) {
